@@ -288,14 +288,13 @@ def load_known_findings():
 
 # ---------------------------------------------------------------- main
 
-def run_harness(prop, tier, seed, outdir, replay=None):
-    h = prop["harness"]
+def run_one_harness(prop, h, tier, seed, outdir, replay=None):
     rc, o, binpath = build_harness(h["cmd"])
     if rc != 0:
         return None, "harness build failed:\n" + o[-3000:]
     shutil.rmtree(outdir, ignore_errors=True)
     os.makedirs(outdir)
-    corpus = os.path.join(VERIF, "corpus", prop["id"])
+    corpus = os.path.join(VERIF, "corpus", h.get("corpus", prop["id"]))
     cmd = [binpath, "-tier", tier, "-seed", str(seed), "-out", outdir, "-corpus", corpus] + h.get("args", [])
     if replay:
         cmd += ["-replay", replay]
@@ -310,6 +309,80 @@ def run_harness(prop, tier, seed, outdir, replay=None):
         meta = json.load(f)
     meta["harness_stdout"] = o[-500:]
     return meta, None
+
+
+def harness_list(prop):
+    hs = []
+    if prop.get("harness"):
+        hs.append(prop["harness"])
+    hs += prop.get("harnesses", [])
+    return hs
+
+
+def run_harness(prop, tier, seed, outdir, replay=None):
+    """Run every harness registered for the property and merge their outputs
+    (case shards, cases.jsonl, meta) into outdir. A replay file names the
+    harness its case came from."""
+    hs = harness_list(prop)
+    if replay:
+        try:
+            k = int(json.load(open(replay)).get("harness_index", 0))
+        except (OSError, ValueError):
+            k = 0
+        hs = [hs[k if k < len(hs) else 0]]
+    if len(hs) == 1:
+        meta, err = run_one_harness(prop, hs[0], tier, seed, outdir, replay)
+        return meta, err
+    shutil.rmtree(outdir, ignore_errors=True)
+    os.makedirs(outdir)
+    merged = {"evaluations": 0, "distinct": 0, "distinct_nontrivial": 0, "rule": [], "samples": [],
+              "distribution": {}, "origins": {}, "shard_offsets": [], "crashes": [], "shards": 0,
+              "harness_of_index": []}
+    total, nshard = 0, 0
+    with open(os.path.join(outdir, "cases.jsonl"), "w") as jl:
+        for k, h in enumerate(hs):
+            sub = os.path.join(outdir, "h%d" % k)
+            meta, err = run_one_harness(prop, h, tier, seed, sub, None)
+            if err:
+                return None, "harness %s: %s" % (h["cmd"], err)
+            offs = meta.get("shard_offsets", [])
+            for n in range(meta.get("shards", len(offs))):
+                src = os.path.join(sub, "cases_%d.v" % n)
+                if os.path.exists(src):
+                    shutil.move(src, os.path.join(outdir, "cases_%d.v" % nshard))
+                    merged["shard_offsets"].append(total + (offs[n] if n < len(offs) else 0))
+                    nshard += 1
+            with open(os.path.join(sub, "cases.jsonl")) as f:
+                for line in f:
+                    rec = json.loads(line)
+                    rec["harness_index"] = k
+                    jl.write(json.dumps(rec) + "\n")
+            n = meta.get("evaluations", 0)
+            merged["harness_of_index"].append([total, total + n, h["cmd"]])
+            total += n
+            merged["evaluations"] += n
+            merged["distinct"] += meta.get("distinct", 0)
+            merged["distinct_nontrivial"] += meta.get("distinct_nontrivial", 0)
+            merged["rule"].append("[%s] %s" % (h["cmd"], meta.get("rule", "")))
+            merged["samples"] += (meta.get("samples") or [])[:3]
+            for t, c in (meta.get("distribution") or {}).items():
+                merged["distribution"]["%s/%s" % (h["cmd"], t)] = c
+            for t, c in (meta.get("origins") or {}).items():
+                merged["origins"]["%s/%s" % (h["cmd"], t)] = c
+            for cr in (meta.get("crashes") or []):
+                cr["harness_index"] = k
+                merged["crashes"].append(cr)
+            for key in ("exhaustive_scope", "traces_validated_against_impl", "faults_injected"):
+                if key in meta:
+                    merged.setdefault(key, "")
+                    merged[key] = ("%s; " % merged[key] if merged[key] else "") + "[%s] %s" % (h["cmd"], meta[key])
+            shutil.rmtree(sub, ignore_errors=True)
+    merged["shards"] = nshard
+    merged["rule"] = " || ".join(merged["rule"])
+    merged["seed"], merged["tier"] = seed, tier
+    with open(os.path.join(outdir, "meta.json"), "w") as f:
+        json.dump(merged, f)
+    return merged, None
 
 
 def case_by_index(outdir, idx):
@@ -441,7 +514,7 @@ def main(argv):
     # 4-5. harness + evaluation
     meta, herr = None, None
     failures, eval_errors = [], []
-    if prop.get("harness"):
+    if harness_list(prop):
         # the harness' Coq side depends on Model/ only; build it even if a proof broke
         if rc_make != 0:
             make_targets([t for t in prop.get("coq_targets", [])])
@@ -481,6 +554,7 @@ def main(argv):
         cr = crashes[0]
         path = write_replay(pid, "failing-input", {
             "case": cr.get("case"), "crash": cr.get("kind"), "detail": cr.get("detail"),
+            "harness_index": cr.get("harness_index", 0),
             "meaning": "the implementation panicked or did not return on this case (watchdog in the harness)",
             "seed": seed, "tier": tier, "crashes": len(crashes)})
         violations.append((path, ""))
@@ -495,13 +569,14 @@ def main(argv):
         _, idx, v, rec = best
         path = write_replay(pid, "failing-input", {
             "case": rec.get("case"), "origin": rec.get("origin"), "verdict_bits": v,
+            "harness_index": rec.get("harness_index", 0),
             "meaning": prop.get("verdict_names", {}), "seed": seed, "tier": tier,
             "other_failing_indices": [i for i, _ in viol_cases[1:20]], "failing_cases": len(viol_cases)})
         violations.append((path, ""))
     elif corr_cases or proof_broken or tie_failures:
         # something broke without a failing input in this run: search harder
         found = None
-        if prop.get("harness") and not replay and tier == "quick" and not herr:
+        if harness_list(prop) and not replay and tier == "quick" and not herr:
             sdir = rundir + "-search"
             smeta, serr = run_harness(prop, "thorough", seed + 1000003, sdir)
             if not serr:
@@ -517,6 +592,7 @@ def main(argv):
             rec, v = found
             path = write_replay(pid, "failing-input", {
                 "case": rec.get("case"), "origin": rec.get("origin"), "verdict_bits": v,
+                "harness_index": rec.get("harness_index", 0),
                 "meaning": prop.get("verdict_names", {}), "seed": seed + 1000003, "tier": "thorough",
                 "found_by": "search after a broken obligation/correspondence",
                 "broken_proof": proof_broken, "tie_failures": tie_failures[:5]})
